@@ -77,7 +77,7 @@ func destroyScenario() *vrt.Scenario {
 	var desc string
 	var reachedDestroy bool
 	return &vrt.Scenario{Name: "destroy", Prop: "C06", Doc: "destroy in every state x flags x per-task kill outcome", Cfg: cfg,
-		Setup: coresim.ResetStore, Quick: vrt.Bounds{Dev: 0, Seconds: 100}, Thorough: vrt.Bounds{Dev: 1, Seconds: 1500},
+		Setup: coresim.ResetStore, Quick: vrt.Bounds{Dev: 0, Seconds: 100}, Thorough: vrt.Bounds{Dev: 1, Seconds: 500},
 		DeadlockClause: "destroy-hangs", PanicClause: "panic",
 		NonTrivial: func(*vrt.Exec) bool { return reachedDestroy },
 		Body: func() {
@@ -231,7 +231,7 @@ func createScenario() *vrt.Scenario {
 	var holderBefore, holderAfter string
 	var preFailed bool
 	return &vrt.Scenario{Name: "create-fails", Prop: "C06", Doc: "creation failing at every stage", Cfg: cfg,
-		Setup: coresim.ResetStore, Quick: vrt.Bounds{Dev: 1, Seconds: 100}, Thorough: vrt.Bounds{Dev: 2, Seconds: 1500},
+		Setup: coresim.ResetStore, Quick: vrt.Bounds{Dev: 1, Seconds: 100}, Thorough: vrt.Bounds{Dev: 2, Seconds: 500},
 		DeadlockClause: "create-hangs", PanicClause: "panic",
 		Body: func() {
 			cc = cases[vrt.ChooseFree(len(cases), "case")]
@@ -331,7 +331,7 @@ func hooksScenario() *vrt.Scenario {
 	wfs := []string{"c06-hooks0", "c06-hooks1", "c06-hooks2", "c06-hooks3"}
 	var wf string
 	return &vrt.Scenario{Name: "destroy-hooks", Prop: "C06", Doc: "DESTROY / after_DESTROY hooks (calls and hook tasks) at several weights", Cfg: cfg,
-		Setup: coresim.ResetStore, Quick: vrt.Bounds{Dev: 1, Seconds: 100}, Thorough: vrt.Bounds{Dev: 2, Seconds: 1500},
+		Setup: coresim.ResetStore, Quick: vrt.Bounds{Dev: 1, Seconds: 100}, Thorough: vrt.Bounds{Dev: 2, Seconds: 500},
 		DeadlockClause: "destroy-hangs", PanicClause: "panic",
 		NonTrivial: func(*vrt.Exec) bool { return f.envID != "" },
 		Body: func() {
